@@ -147,7 +147,9 @@ type WTx struct {
 	// 1 = its 24-byte header only, 2 = header and half of the page. The write stops there (an interrupted
 	// statement, or a process that dies), the write lock is released.
 	Torn int
-	// FromWAL rewrites page 1 with rollback-mode header bytes (not a legal direct switch; unused by default).
+	// FreeLeaves: pages up to NewSize that get no frame are free-list leaves the transaction allocated and freed
+	// again (SQLite never writes them); legal only beyond the old size.
+	FreeLeaves bool
 }
 
 // WTxResult mirrors RTxResult for WAL programs.
@@ -727,6 +729,10 @@ func (c *Conn) RunWTx(tx WTx, cur *oracle.Image) (res WTxResult) {
 		if next.Pages[i] == nil {
 			if uint32(i+1) == lock {
 				next.Pages[i] = make([]byte, c.PageSize)
+			} else if tx.FreeLeaves && uint32(i+1) > size {
+				// a free-list leaf allocated and freed inside the transaction: never written, not even as a frame;
+				// readers find it neither in the log nor in the (shorter) database file and see zeros
+				next.Pages[i] = make([]byte, c.PageSize)
 			} else {
 				c.wfail(&res, "program", fmt.Errorf("illegal program: page %d of %d has no content", i+1, newSize))
 				return
@@ -951,3 +957,6 @@ func (c *Conn) Checkpoint(mode string, maxFrames uint32) error {
 	}
 	return nil
 }
+
+// WALChecksum is SQLite's WAL checksum over b (a multiple of 8 bytes) continued from (s0, s1).
+func WALChecksum(bo binary.ByteOrder, s0, s1 uint32, b []byte) (uint32, uint32) { return walCk(bo, s0, s1, b) }
